@@ -225,7 +225,19 @@ func mergeConfigPrependArr(opts *options, to, from *Config) Error {
 		a: make([]value, 0, len(a1)+len(a2)),
 	}
 	fields.append(parent, a2)
-	fields.append(parent, a1)
+	// the existing elements move up: keep them (handles to them stay live) and
+	// record their new index
+	for i, v := range a1 {
+		if ctx := v.Context(); ctx.field == fmt.Sprintf("%v", i) {
+			ctx.field = fmt.Sprintf("%v", len(fields.a))
+			if sub, ok := v.(cfgSub); ok {
+				sub.c.ctx = ctx
+			} else {
+				v.SetContext(ctx)
+			}
+		}
+		fields.a = append(fields.a, v)
+	}
 	*to.fields = fields
 	return nil
 }
